@@ -18,6 +18,78 @@ def parent_map(root):
     return pm
 
 
+def chained_loop(an, f, loop):
+    """If `loop` walks the rest of a list with, for each element, the
+    element before it (the first element of the list for the first one), in
+    either spelling
+        prev = first                      for prev, cur in zip([first] + rest,
+        for cur in rest:                                       rest):
+            ...; prev = cur                   ...
+    return (name of the current element, name of the previous one), else
+    None.  first / rest: `first, *rest = LIST` (first_rest)."""
+    pairs = [(a, r) for a, r, _ in first_rest(f) if r is not None]
+    wholes = {r: src(lst) for a, r, lst in first_rest(f) if r is not None}
+    target, iterable = loop.target, loop.iter
+    if isinstance(iterable, ast.Call) and \
+            src(iterable.func) == 'enumerate' and iterable.args and \
+            isinstance(target, ast.Tuple) and len(target.elts) == 2:
+        # for i, cur in enumerate(rest): the index changes nothing
+        target, iterable = target.elts[1], iterable.args[0]
+    if isinstance(target, ast.Name):
+        cur = target.id
+        it = src(strip_wrappers(iterable, names=('list', 'tuple')))
+        for first, rest in pairs:
+            if it != rest:
+                continue
+            c = an.cfg(f)
+            head = c.stmt_node[id(loop)]
+            for name in _local_names(f):
+                st = stores_to(f, name)
+                within = [s_ for s_, v in st if inside(loop, s_)]
+                if len(within) != 1 or within[0] not in loop.body or \
+                        src(within[0].value) != cur:
+                    continue
+                # the bindings made outside the loop that reach its head
+                dn = {id(s_): c.done_node.get(id(s_)) for s_, _ in st}
+                reach = []
+                for s_, v in st:
+                    if inside(loop, s_) or dn[id(s_)] is None:
+                        continue
+                    others = {d for k, d in dn.items()
+                              if k != id(s_) and d is not None}
+                    if c.path(dn[id(s_)], head, removed=others,
+                              use_exc=False):
+                        reach.append(v)
+                if not reach or any(v is None or src(v) != first
+                                    for v in reach):
+                    continue
+                done = dn[id(within[0])]
+                if not any(c.path(s0, head, removed={done}, use_exc=False)
+                           for s0 in c.succ[head]
+                           if c.nodes[s0].kind == 'true'):
+                    return cur, name
+        return None
+    t = loop.target
+    it = loop.iter
+    if isinstance(t, ast.Tuple) and len(t.elts) == 2 and \
+            isinstance(t.elts[0], ast.Tuple) and \
+            isinstance(it, ast.Call) and src(it.func) == 'enumerate':
+        return None
+    if isinstance(t, ast.Tuple) and len(t.elts) == 2 and \
+            all(isinstance(e, ast.Name) for e in t.elts) and \
+            isinstance(it, ast.Call) and src(it.func) == 'zip' and \
+            len(it.args) == 2:
+        a, b = (' '.join(src(x).split()) for x in it.args)
+        for first, rest in pairs:
+            if b == rest and a in ('[%s] + %s' % (first, rest),
+                                   '[%s, *%s]' % (first, rest),
+                                   '[%s] + %s[:-1]' % (first, rest),
+                                   wholes.get(rest),
+                                   '%s[:-1]' % wholes.get(rest)):
+                return t.elts[1].id, t.elts[0].id
+    return None
+
+
 def locals_bound_to(f, text=None, pred=None):
     """Names of the locals of f whose every binding has the canonical value
     `text` (or a canonical value accepted by pred): the way a rule names a
